@@ -1528,7 +1528,8 @@ class C09(Prop):
     pid = "C09"
     title = "Transforming or copying an entity equals transforming its output geometry"
     prebuilt = ["Base/Vec3.v", "Proofs/SourceEqTac.v", "Model/C09_Transform.v", "Proofs/C09_Leaves.v", "Proofs/C09_Commute.v", "Proofs/C09_Equivariance.v",
-                "Proofs/C09_Traverse.v", "Proofs/C09_Heap.v", "Proofs/C09_ArcLength.v", "Proofs/C09_Main.v", "Proofs/C09_Output.v"]
+                "Proofs/C09_Traverse.v", "Proofs/C09_Heap.v", "Proofs/C09_ArcLength.v", "Proofs/C09_Main.v", "Proofs/C09_Output.v",
+                "Model/C09_Sphere.v", "Proofs/C09_Sphere.v"]
     gen_dependent_files = ["Gen/C09/Tables.v", "Gen/C09/Source.v", "Proofs/C09_SourceEq.v"]
     property_files = ["Properties/C09.v"]
     trusted = [
